@@ -102,6 +102,15 @@ SCENARIOS['hetero']['aprofiles'] = [
 SCENARIOS['hetero']['apps'] = ['a1', 'a2', 'a3', 'a4', 'a5']
 
 
+# a cell trait list with a duplicate entry, and a server reporting a trait the list lacks
+SCENARIOS['dup'] = dict(SCENARIOS['base'])
+SCENARIOS['dup']['traits'] = ['t1', 't2', 't1']
+SCENARIOS['dup']['sprofiles'] = list(SCENARIOS['base']['sprofiles']) + [
+    dict(cap=[4096, 4, 4096], label='_default', traits=['x9']),
+    dict(cap=[4096, 4, 4096], label='pB', traits=['x9', 't2'])]
+SCENARIOS['dup']['server_init'] = {'s1': 6, 's2': 3, 's3': 7}
+
+
 def gen_hetero(scn, rng):
     """Instances of one affinity name with different limits, placed one cycle at
     a time (so that the strict ones may come first), then fail-overs."""
